@@ -2,6 +2,7 @@ package types
 
 import (
 	"encoding/hex"
+	"strings"
 
 	"github.com/ExocoreNetwork/exocore/utils"
 
@@ -202,7 +203,8 @@ func (gs GenesisState) ValidateUndelegations() error {
 			return errorsmod.Wrap(ErrInvalidGenesisData, err.Error())
 		}
 
-		bytes, err := hex.DecodeString(undelegation.TxHash)
+		// the keeper stores the hash with its "0x" prefix (common.Hash.String)
+		bytes, err := hex.DecodeString(strings.TrimPrefix(undelegation.TxHash, "0x"))
 		if err != nil {
 			return errorsmod.Wrapf(
 				ErrInvalidGenesisData, "TxHash isn't a hex string, TxHash: %s",
